@@ -55,6 +55,10 @@ CheckTable(ev) ==
     LET r == ev.rows[k] IN
       (IF SeqToSet(r.decl_r) # SeqToSet(r.shared) THEN {F("C11", "declared reads differ from what fetch borrows shared (handle, declared, borrowed)", <<r.name, r.decl_r, r.shared>>)} ELSE {})
       \cup (IF SeqToSet(r.decl_w) # SeqToSet(r.excl) THEN {F("C11", "declared writes differ from what fetch borrows exclusively (handle, declared, borrowed)", <<r.name, r.decl_w, r.excl>>)} ELSE {})
+      \* fetching must not need, even for a moment, anything beyond the declaration: it succeeds while every
+      \* undeclared resource is held exclusively and every resource declared as read is held shared by others
+      \cup (IF "hostile" \in DOMAIN r /\ r.hostile # <<>>
+            THEN {F("C11", "fetching the handle needs more than it declares (handle, resources whose foreign borrow made the fetch fail)", <<r.name, r.hostile>>)} ELSE {})
     : k \in 1..Len(ev.rows) }
 
 CheckDispatch(ev) ==
